@@ -725,9 +725,9 @@ impl<'t, 'd> GGen<'t, 'd> {
         let cfg = self.cfg.cfg_rep && sep.is_none() && !matches!(sink, Sink::Str) && self.t.chance(1, 4);
         let ctxb = if self.cfg.ctx && !cfg && sep.is_none() && !matches!(sink, Sink::Str | Sink::Exactly(_)) && self.t.chance(1, 3) { 1 + self.t.pick(3) as u8 } else { 0 };
         if ctxb == 2 {
-            // at_most(n) from context: keep the static lower bound at 0 so that the interval cannot be empty
-            // (the empty-interval sub-domain is C02's, finding KF-b)
-            lo = 0;
+            // at_most(n) from context with a static lower bound; inputs that make the interval empty
+            // (n < at_least) are C02's known finding KF-b and are skipped by the checks (counted)
+            lo = lo.min(2);
         }
         Rep { item: b(item), sep, leading, trailing, lo, hi, sink, cfg, ctxb }
     }
